@@ -108,13 +108,24 @@ Remove(k) ==
                          pending |-> {[id |-> l.id, keys |-> {KeyStr(x) : x \in l.keys}] : l \in pend'},
                          subs |-> [c \in Clients |-> {KeyStr(x) : x \in subs'[c]}]]])
 
-\* full-value import (transfer / snapshot): replaces value and history, no notification
-Import(k, v) ==
+\* full-value import (transfer / snapshot): replaces value and history, no notification.  The record carries its content and
+\* its history as two things: hs is the history as the record lists it, which need not end with the content (a file written by
+\* another tool or an older version, a record built while the key held a forwarded value) - what is served is the record's
+\* CONTENT with its md5, and the history as listed.
+\* (OddImports is a definition the generation configurations override with OddOn: the model-checking configurations keep
+\* the invariant HistoryEndsWithContent, which speaks about publishes and which such a record breaks by its input.)
+ImportHist == UNION {[1..n -> Contents] : n \in 1..2}
+OddImports == FALSE
+OddOn == TRUE
+Import(k, v, hs) ==
     /\ ~WithListeners
-    /\ cache' = Put(cache, k, [content |-> v, ctype |-> "", tmp |-> FALSE, listed |-> TRUE, hist |-> <<[id |-> nextHid, content |-> v]>>])
-    /\ nextHid' = nextHid + 1
+    /\ OddImports \/ hs[Len(hs)] = v
+    /\ cache' = Put(cache, k, [content |-> v, ctype |-> "", tmp |-> FALSE, listed |-> TRUE,
+                               hist |-> [i \in 1..Len(hs) |-> [id |-> nextHid + i - 1, content |-> hs[i]]]])
+    /\ nextHid' = nextHid + Len(hs)
     /\ UNCHANGED <<pend, subs, now, usedL>>
-    /\ Step([op |-> "import", key |-> KeyStr(k), k |-> k, v |-> v, hid |-> nextHid,
+    /\ Step([op |-> "import", key |-> KeyStr(k), k |-> k, v |-> v, hid |-> nextHid + Len(hs) - 1,
+             h |-> [i \in 1..Len(hs) |-> [id |-> nextHid + i - 1, content |-> hs[i]]],
              answered |-> {}, notify |-> <<>>,
              obs |-> [cache |-> [ks \in {KeyStr(x) : x \in DOMAIN cache'} |->
                                      LET kk == CHOOSE x \in DOMAIN cache' : KeyStr(x) = ks IN cache'[kk]],
@@ -203,7 +214,7 @@ Next ==
     \/ \E k \in Keys, v \in Contents, ty \in Types \cup {""} : Publish(k, v, ty, FALSE)
     \/ \E k \in Keys, v \in Contents : WithListeners /\ Publish(k, v, "", TRUE)
     \/ \E k \in Keys : Remove(k)
-    \/ \E k \in Keys, v \in Contents : Import(k, v)
+    \/ \E k \in Keys, v \in Contents, hs \in ImportHist : Import(k, v, hs)
     \/ \E k \in Keys, v \in Contents : Echo(k, v)
     \/ \E l \in Lids, items \in ItemSets, dt \in {0, 1, 100} : Listen(l, items, dt)
     \/ Tick
